@@ -131,10 +131,11 @@ func c13WithFixedOffset(f func(bool)) {
 	f(false)
 }
 
-func VerifC13_ToDateFixedOffset()    { c13WithFixedOffset(c13ToDate) }
-func VerifC13_ParseDateFixedOffset() { c13WithFixedOffset(c13ParseDate) }
-func VerifC13_DateWireFixedOffset()  { c13WithFixedOffset(c13DateWire) }
-func VerifC13_DateJSONFixedOffset()  { c13WithFixedOffset(c13DateJSON) }
+func VerifC13_ToDateFixedOffset()     { c13WithFixedOffset(c13ToDate) }
+func VerifC13_ParseDateFixedOffset()  { c13WithFixedOffset(c13ParseDate) }
+func VerifC13_DateWireFixedOffset()   { c13WithFixedOffset(c13DateWire) }
+func VerifC13_DateJSONFixedOffset()   { c13WithFixedOffset(c13DateJSON) }
+func VerifC13_SystemDateFixedOffset() { c13WithFixedOffset(c13SystemDate) }
 
 // SystemDate: BCD YYMMDD, years 2000..2068.
 func c13SystemDate(iana bool) {
